@@ -610,6 +610,29 @@ theorem gate_prefix_example :
       cmpAttr ⟨.set, [79, 112, 101, 110, 83, 104, 105, 102, 116]⟩ ⟨.set, [111, 112, 101, 110, 115, 104, 105, 102, 116]⟩ = .equal := by
   decide
 
+/-- Histories on shared values: when ONE `*Vulnerability` / `*Repository` /
+    `*IndexRecord` is passed to `Vulnerable` again and again, with the
+    repository name, the CPE the repository holds and the record's CPE changed
+    in between (or the held CPE pre-populated with something that does not
+    belong to the name), the verdict of every call is the verdict of the
+    current field values — `Repo.Name`'s CPE against the record's CPE — and
+    does not depend on earlier calls or on what the repository holds. -/
+theorem vulnerable_history_independent (st : HSt) (ops : List VOp) :
+    vRun st ops = vExpected st.name st.record ops :=
+  vRun_eq_expected st ops
+
+/-- In particular the held CPE is never read. -/
+theorem vulnerable_ignores_held_cpe (name : Str) (h1 h2 record : WFN) :
+    (vulnCall name h1 record).1 = (vulnCall name h2 record).1 := by
+  rw [vulnCall_verdict, vulnCall_verdict]
+
+/-- A text that `UnmarshalText` / `Scan` reject leaves the receiver untouched;
+    one they accept replaces it. -/
+theorem unmarshal_error_keeps_receiver (w0 : WFN) (b : Str) :
+    (unmarshalText w0 b = none → intoReceiver w0 (unmarshalText w0 b) = (w0, false)) ∧
+      (scanText w0 b = none → intoReceiver w0 (scanText w0 b) = (w0, false)) := by
+  constructor <;> intro h <;> simp [intoReceiver, h]
+
 /-- It reports nothing else than superset or the prefix match on the bound strings. -/
 theorem gate_iff (vuln record : WFN) :
     gate vuln record = true ↔
